@@ -330,6 +330,7 @@ class Oracle:
         self.paid = 0
         self.balance = 0       # reference balance
         self.run_units = 0     # units bought since the tier count last restarted
+        self.restarted_this_game = False   # the ball-2 restart happens once per game (games seen in credit play)
         self.bad = []
 
     def fail(self, sig, **detail):
@@ -392,6 +393,7 @@ class Oracle:
             self.balance -= self.upg * added
             if pl0 == 0:
                 self.run_units = 0      # pricing tiers restart with the game
+                self.restarted_this_game = False
         self.bounds(op, u1)
         self.display(op, run)
         if u1 != self.balance:
@@ -417,6 +419,16 @@ class Oracle:
             want_s = "CREDITS " + want_v
         if (s, v) != (want_s, want_v):
             self.fail("display-mismatch", op=op, credits_string=s, credits_value=v, expected=[want_s, want_v])
+
+    def ball2(self):
+        """ball 2 of player 1 starts while the machine is in credit play: the tier count restarts, once per game"""
+        if not self.restarted_this_game:
+            self.run_units = 0
+            self.restarted_this_game = True
+
+    def game_over(self, fp):
+        if not fp:
+            self.restarted_this_game = False
 
     def bounds(self, op, u):
         if u < 0:
@@ -447,7 +459,7 @@ class Oracle:
         self.balance = u
         # ball 2 of player 1 starts: the tier count restarts (observed through the game state)
         if ball_after == (1, 2) and ball_before != (1, 2) and not fp:
-            self.run_units = 0
+            self.ball2()
 
 
 def ball_of(run):
@@ -476,8 +488,10 @@ def execute(cfg, ops, model):
             ball0 = ball_of(run)
             before = (run.units() or 0, run.free_play(), run.players(), ball0)
             cr = run.act(op)
-            if cr is None and ball_of(run) != ball0 and ball_of(run) == (1, 2) and not run.free_play():
-                orc.run_units = 0     # ball 2 of player 1 started inside the request
+            if cr is None and ball_of(run) != ball0 and ball_of(run) == (1, 2) and not before[1]:
+                orc.ball2()           # ball 2 of player 1 started inside the request
+            if cr is None and before[2] > 0 and run.players() == 0:
+                orc.game_over(before[1])
             orc.after_act(op, before, run, cr)
             if cr:
                 break
@@ -496,6 +510,8 @@ def execute(cfg, ops, model):
             cr = run.tick(op)
             all_fired = d is not None and d[0].when() <= run.vm.now()
             frac_fired = df is not None and df[0].when() <= run.vm.now()
+            if cr is None and ball1 is not None and run.players() == 0:
+                orc.game_over(fp_mid)
             orc.after_tick(op, run, cr, ball1, ball_of(run), u_mid, frac_fired, all_fired, fp_mid)
             if cr:
                 break
@@ -555,10 +571,10 @@ def run_case(ctx, cfg, ops, model, sample=True):
             ctx.fail(sig, case, bad[0][1])
 
 
-def run(ctx):
+def run_range(ctx, lo, hi):
     model = None if getattr(ctx, "model_unavailable", False) else leanproc.LeanProc(ID)
     try:
-        for i in range(ctx.n(600, 9000)):
+        for i in range(lo, hi):
             r = ctx.rng("case", i)
             cfg = gen_cfg(r)
             run_case(ctx, cfg, gen_ops(r, cfg), model)
@@ -569,6 +585,15 @@ def run(ctx):
     finally:
         if model is not None:
             model.close()
+
+
+def run(ctx):
+    total = ctx.n(600, 9000)
+    if total <= 1000:
+        run_range(ctx, 0, total)
+    else:       # thorough tier / failing-input search: fresh worker processes, 300 cases each
+        from harness.common import pool_c20c11
+        pool_c20c11.run_parallel(ctx, "harness.corr." + ID, total)
 
 
 def replay(ctx, rep):
